@@ -526,9 +526,17 @@ async fn spawn_pipeline_processes(
             }
         };
 
-        let spawn_result = command
+        let mut spawn_result = command
             .execute_in_pipeline(pipeline_context, cmd_params)
             .await?;
+
+        // A command that ran in its own subshell can't affect this shell's control flow
+        // (e.g., `true | exit 3` or `true | break`); only its exit status is of interest.
+        if !run_in_current_shell {
+            if let ExecutionSpawnResult::Completed(result) = &spawn_result {
+                spawn_result = ExecutionSpawnResult::Completed(result.exit_code.into());
+            }
+        }
 
         // Update the process group ID if something was spawned.
         if let ExecutionSpawnResult::StartedProcess(child) = &spawn_result {
